@@ -22,6 +22,7 @@ SOLVER_KW = {
     "vi": dict(gamma=0.5, epsilon=0.01),
     "rvi": dict(epsilon=0.02),
     "pvi": dict(gamma=0.5, epsilon=0.01, period=3, clear_value_history_on_convergence=False),
+    "savi": dict(gamma=0.5, epsilon=0.01, max_batch_size=2),
 }
 ROOTDIR = os.path.dirname(os.path.dirname(os.path.dirname(os.path.abspath(__file__))))
 
@@ -38,13 +39,14 @@ def histories(ctx):
     # periodic VI saving at EVERY iteration, so that every position of the circular-buffer cursor
     # (including the last slot) is checkpointed and recovered
     H.append(dict(solver="pvi", f=1, m=2, asy=True, k1=4, k2=None))
+    H.append(dict(solver="savi", f=2, m=1, asy=False, k1=4, k2=None))
     if not q:
         H = []
         H.append(dict(solver="pvi", f=1, m=1, asy=False, k1=8, k2=3))
         for crc in ("tmp-present", "just-committed", "deletion-half-done"):
             for solver, asy in (("vi", True), ("pvi", True), ("rvi", False)):
                 H.append(dict(solver=solver, f=2, m=2, asy=asy, k1=5, k2=None, crc=crc, k2c=3))
-        for solver, (f, m), asy in itertools.product(("vi", "rvi", "pvi"), ((1, 1), (2, 2), (1, 2), (2, 1)), (False, True)):
+        for solver, (f, m), asy in itertools.product(("vi", "rvi", "pvi", "savi"), ((1, 1), (2, 2), (1, 2), (2, 1)), (False, True)):
             H.append(dict(solver=solver, f=f, m=m, asy=asy, k1=4 if f == 1 else 5, k2=3 if (f + m + asy) % 2 == 0 else None))
     return H
 
